@@ -9,7 +9,7 @@ from sx import Sym
 
 RULE = ("seeded call sequences (length<=10) on Data3D, ForceTorque3D (add_track, tracks = …) and EMG (addSignal): tracks of the "
         "block's length and of other lengths, non-track objects (None, str, ndarray, int, a track of another block kind) at every "
-        "position of assigned lists, generators that raise midway, non-iterables; after half of the list assignments the caller appends a wrong-length track to / deletes from ITS list; observed after each call: identity of the tracks "
+        "position of assigned lists, generators that raise midway, one-shot iterables that do not (generator, iter, map, filter, reversed), non-iterables; after half of the list assignments the caller appends a wrong-length track to / deletes from ITS list; observed after each call: identity of the tracks "
         "held (block.tracks / iteration) and raised?; non-trivial = sequence with >=1 refused call after >=1 accepted; distinct by calls")
 ASSUMPTIONS = ["'refused' = raises; the exception class is not part of the property"]
 
@@ -76,6 +76,7 @@ def run(ctx):
                 offered = [gen_offered(kind, n, rng, ids) for _ in range(rng.randrange(0, 5))]
                 objs = [o for o, _ in offered]
                 boom = None
+                oneshot = None
                 mode = rng.random()
                 if mode < 0.2 and objs:
                     boom = rng.randrange(0, len(objs) + 1)
@@ -91,6 +92,17 @@ def run(ctx):
                 elif mode < 0.27:
                     values = rng.choice([None, 5])
                     offered, boom = [], 0
+                elif mode < 0.45:
+                    # one-shot iterables that do NOT raise: a generator, iter(list), map, filter, reversed (the latter yields the
+                    # elements last to first): the setter must install exactly what the iterable yields, once
+                    how = rng.choice(["generator", "iter", "map", "filter", "reversed"])
+                    if how == "reversed":
+                        offered = offered[::-1]
+                        values = reversed(objs)
+                    else:
+                        values = {"generator": (o for o in objs), "iter": iter(objs), "map": map(lambda o: o, objs),
+                                  "filter": filter(lambda o: True, objs)}[how]
+                    oneshot = how
                 elif mode < 0.5:
                     values = tuple(objs)
                 else:
@@ -101,7 +113,7 @@ def run(ctx):
                 except Exception as e:
                     exc = e
                 calls.append([Sym("assign"), [m for _, m in offered], Sym("none") if boom is None else boom])
-                desc = "assign" + ("(raising iterable)" if boom is not None else "")
+                desc = "assign" + ("(raising iterable)" if boom is not None else "") + (f"({oneshot})" if oneshot else "")
                 if isinstance(values, list) and rng.random() < 0.5:
                     # the caller goes on using ITS list: the block must have taken the tracks, not the list
                     before_ids = held(kind, blk, ids)
@@ -122,7 +134,10 @@ def run(ctx):
                 calls.append([Sym("add"), m])
                 desc = "add"
             lens_ok = all((t.nSamples if kind == "emg" else t.nFrames) == n for t in blk)
-            obs.append((desc, exc, held(kind, blk, ids), lens_ok))
+            given = None
+            if desc.startswith("assign") and exc is None:
+                given = [ids.get(id(o), -1) for o, _ in offered]       # "installs exactly that list"
+            obs.append((desc, exc, held(kind, blk, ids), lens_ok, given))
         runs.append((kind, n, calls, obs))
     for kind, n, calls, b, a in aliased[:5]:
         ctx.fail(f"{kind} (nFrames={n}): after `block.tracks = lst` the caller changed lst and the block's tracks changed with it ({b} -> {a}): "
@@ -131,22 +146,25 @@ def run(ctx):
     for (kind, n, calls, obs), rep in zip(runs, replies):
         accepted_then_refused = False
         seen_ok = False
-        for d, e, _, _ in obs:
+        for d, e, _, _, _ in obs:
             if e is None:
                 seen_ok = True
             elif seen_ok:
                 accepted_then_refused = True
-        ctx.case((kind, n, str(calls)), nontrivial=accepted_then_refused, sample=dict(kind=kind, n=n, calls=[f"{d}:{'raised' if e else 'ok'}" for d, e, _, _ in obs]),
-                 tags=[kind] + [f"{d}:{'raised' if e else 'ok'}" for d, e, _, _ in obs])
+        ctx.case((kind, n, str(calls)), nontrivial=accepted_then_refused, sample=dict(kind=kind, n=n, calls=[f"{d}:{'raised' if e else 'ok'}" for d, e, _, _, _ in obs]),
+                 tags=[kind] + [f"{d}:{'raised' if e else 'ok'}" for d, e, _, _, _ in obs])
         rp = dict(kind=kind, n=n, calls=[str(c) for c in calls])
         prev = []
-        for i, ((desc, exc, ids_now, lens_ok), m) in enumerate(zip(obs, rep)):
+        for i, ((desc, exc, ids_now, lens_ok, given), m) in enumerate(zip(obs, rep)):
             rpi = dict(rp, upto=i)
             if ids_now is None:
                 ctx.fail(f"{kind}: iteration and the tracks list disagree after {desc}", rpi, ident=f"{kind} iteration")
                 break
             if not lens_ok:
                 ctx.fail(f"{kind} (nFrames={n}): the block now contains a track of another length after {desc}", rpi, ident=f"{kind} wrong-length track entered via {desc.split('(')[0]}")
+                break
+            if given is not None and ids_now is not None and ids_now != given:
+                ctx.fail(f"{kind}: {desc} succeeded but the block holds {ids_now}, not the list that was assigned {given}", dict(rp, upto=i), ident=f"{kind} {desc.split('(')[0]} did not install the assigned list")
                 break
             if exc is not None and ids_now != prev:
                 ctx.fail(f"{kind}: {desc} raised {type(exc).__name__} but the block's tracks changed {prev} -> {ids_now}", rpi, ident=f"{kind} refused {desc.split('(')[0]} changed the block")
